@@ -41,6 +41,13 @@ fn property(id: &str) -> Option<(Registry, Option<Gen>)> {
         "C08" => (hash::C08, Some(hash::c08 as Gen)),
         "C09" => (misc::C09, Some(misc::c09 as Gen)),
         "C10" => (pwstr::C10, Some(pwstr::c10 as Gen)),
+        // nightly flavour: the stable cases plus every randomised constructor of the heap / locked containers
+        #[cfg(feature = "nightly")]
+        "C11" => {
+            let all: Vec<(&'static str, CaseFn)> = misc::C11.iter().chain(nightly::C11.iter()).cloned().collect();
+            (Box::leak(all.into_boxed_slice()), Some(nightly::c11 as Gen))
+        }
+        #[cfg(not(feature = "nightly"))]
         "C11" => (misc::C11, Some(misc::c11 as Gen)),
         "C12" => (misc::C12, Some(misc::c12 as Gen)),
         "C13" => (curve::C13, Some(curve::c13 as Gen)),
